@@ -6,6 +6,7 @@ CONSTANTS
   Schemes = {"U", "L", "M"}
   Leaves = {"int", "float", "string", "bool"}
   Emit = FALSE
+  KeyMode = "plain"
 INVARIANTS
-  Loadable MemoFunctional RespellLemma NormIdempotent NormKeepsMeaning ExpandLemma LoggedLemma GoodFits BadMisfits
+  Loadable MemoFunctional RespellLemma NormIdempotent NormKeepsMeaning ExpandLemma RekeyLemma FormatsLemma LoggedLemma GoodFits BadMisfits
 CHECK_DEADLOCK FALSE
